@@ -180,7 +180,7 @@ def rules(ctx, tab, tag=""):
             stored = [pse.unit_variant(e["value"])[1] for e in r.state_stores if pse.unit_variant(e["value"])]
             was_waiting = (r.s0 == "Waiting") or ("Waiting" in stored)
             if was_waiting and r.ge_delay == 1:
-                ctx.ob("R3" + tag, lab + "/playing-same-frame", "Playing" in stored,
+                ctx.ob("R3" + tag, lab + "/playing-same-frame", "Playing" in stored or (r.final == "Ended" and r.ge_duration == 1),
                        "an animator that is Waiting with position >= delay starts Playing in the same frame (not one frame "
                        "later); stores: %s" % stored, site, trace_of(p), what="playing-delayed")
             if r.final == "Waiting":
